@@ -2,7 +2,7 @@ import PhyModel.Proofs.TablePos
 /-! Placing data point `i` on a parent state produces trees that mention only the parent's data
 points and `i` (canonicalisation included), so `Good` is inherited by every placement. -/
 namespace PhyModel
-open Orders
+open Orders C19P
 
 namespace Orders.Forest
 
